@@ -210,6 +210,65 @@ def check(ctx):
     ctx.rule("C04.R6", "a container is returned as is only when its static class guarantees a JSON builtin (list / dict) or the matching pass_through option is set", floor=4)
     passthrough_rule(ctx)
 
+    # ---------------- R7
+    ctx.rule("C04.R7", "a method / property registered as serialized method or serializer is invoked through the instance, by name: an override in a subclass is what gets serialized", floor=3)
+    late_binding_rule(ctx, "C04.R7")
+
+
+def late_binding_rule(ctx, rule):
+    """apischema.methods.method_wrapper: each wrapper returns `getattr(self, name)` (called for methods), `name` being the
+    registered attribute name; nothing bound at decoration time (method, method.fget, a local built from them) is called."""
+    model = ctx.model
+    mw = model.func("apischema.methods.method_wrapper")
+    class _W:
+        def __init__(self, node):
+            self.node, self.name, self.params = node, node.name, [a.arg for a in node.args.args]
+    wrappers = [_W(n) for n in ast.walk(mw.node) if isinstance(n, ast.FunctionDef) and n is not mw.node and n.args.args]
+    ctx.require(len(wrappers) >= 3, "method_wrapper: wrapper functions not found")
+    meth = mw.params[0]
+    # locals of method_wrapper derived from the decorated object (early bound)
+    early = {meth}
+    changed = True
+    while changed:
+        changed = False
+        for n in walk_no_nested(mw.node):
+            if isinstance(n, ast.Assign) and len(n.targets) == 1 and isinstance(n.targets[0], ast.Name) and n.targets[0].id not in early and n.targets[0].id != mw.params[1]:
+                v = n.value
+                # `name = name or method.__name__` is a string, not a callable: only attribute chains ending in a function count
+                if isinstance(v, ast.BoolOp) and all(isinstance(x, ast.Name) or (isinstance(x, ast.Attribute) and x.attr == "__name__") for x in v.values):
+                    continue
+                if any(isinstance(x, ast.Name) and x.id in early for x in ast.walk(v)) and not (isinstance(v, ast.Attribute) and v.attr == "__name__"):
+                    early.add(n.targets[0].id)
+                    changed = True
+    name_defs = [n for n in walk_no_nested(mw.node) if isinstance(n, ast.Assign) and norm(n.targets[0]) == mw.params[1]]
+    for w in wrappers:
+        self_p = w.params[0]
+        rets = [n for n in walk_no_nested(w.node) if isinstance(n, ast.Return)]
+        ok = len(rets) == 1 and rets[0].value is not None
+        why = "the wrapper has no single return"
+        if ok:
+            v = rets[0].value
+            core = v.func if isinstance(v, ast.Call) and not (isinstance(v.func, ast.Name) and v.func.id == "getattr") else v
+            ok = isinstance(core, ast.Call) and isinstance(core.func, ast.Name) and core.func.id == "getattr" and len(core.args) == 2 \
+                and norm(core.args[0]) == self_p and norm(core.args[1]) == mw.params[1]
+            why = f"`{short(v, 60)}` does not look `{mw.params[1]}` up on the instance"
+            used_early = sorted({x.id for x in ast.walk(w.node) if isinstance(x, ast.Name) and isinstance(x.ctx, ast.Load) and x.id in early
+                                 and not any(x in list(ast.walk(d)) for d in w.node.decorator_list)})
+            if used_early:
+                ok = False
+                why = f"the wrapper calls `{used_early[0]}`, bound when the base class was decorated"
+        ctx.check(ok, rule, f"{mw.qualname}:{w.name}#{wrappers.index(w)}", None,
+                  f"{why}: a subclass overriding the serialized method / property (without decorating it again) is serialized with the base class implementation", mw, w.node,
+                  detail=f"return getattr({self_p}, {mw.params[1]})[(...)]")
+    def name_ok(v):
+        if isinstance(v, ast.BoolOp) and isinstance(v.op, ast.Or):
+            return norm(v.values[0]) == mw.params[1] and name_ok(v.values[-1])
+        if isinstance(v, ast.IfExp):
+            return all(norm(x) == mw.params[1] or name_ok(x) for x in (v.body, v.orelse))
+        return isinstance(v, ast.Attribute) and v.attr == "__name__"
+    for d in name_defs:
+        ctx.check(name_ok(d.value), rule, f"{mw.qualname}:name", d, "the looked-up name is no longer the explicit name or the function's own __name__", mw, d, detail="name = name or <function>.__name__")
+
 
 def passthrough_rule(ctx):
     model = ctx.model
@@ -262,6 +321,12 @@ def passthrough_rule(ctx):
 
 
 def mutants(mb):
+    MW = "apischema/methods.py"
+    mb.add_text("wrapper-calls-fget", MW, "            assert name is not None\n            return getattr(self, name)\n", "            return method.fget(self)\n", "C04.R7", "wrapper#0")
+    mb.add_text("wrapper-calls-method", MW, "                assert name is not None\n                return getattr(self, name)(*args, **kwargs)\n", "                return method(self, *args, **kwargs)\n", "C04.R7", "wrapper#2")
+    mb.add_text("wrapper-looks-up-on-class", MW, "                assert name is not None\n                return getattr(self, name)()\n", "                return getattr(method_class(method), name)(self)\n", "C04.R7", "wrapper#1")
+    mb.add_text("neg-wrapper-self-renamed", MW, "        def wrapper(self):\n            assert name is not None\n            return getattr(self, name)\n\n    else:", "        def wrapper(obj):\n            assert name is not None\n            return getattr(obj, name)\n\n    else:", negative=True)
+    mb.add_text("neg-name-if-none", MW, "        name = name or method.fget.__name__\n", "        name = method.fget.__name__ if name is None else name\n", negative=True)
     S = "apischema/serialization/__init__.py"
     M = "apischema/serialization/methods.py"
     F = "apischema/objects/fields.py"
